@@ -623,6 +623,14 @@ func (k Keeper) WithdrawLimitAuctionBid(ctx sdk.Context, bidder string, Collater
 		return types.ErrBidNotFound
 	}
 
+	// only the bidder's own outstanding deposit, in the deposited denom, can be withdrawn
+	if amount.Denom != userLimitBid.DebtToken.Denom {
+		return types.ErrorUnknownDebtToken
+	}
+	if amount.Amount.GT(userLimitBid.DebtToken.Amount) {
+		return sdkerrors.Wrapf(sdkerrors.ErrInsufficientFunds, "withdraw amount %s is greater than the deposited amount %s", amount.Amount, userLimitBid.DebtToken.Amount)
+	}
+
 	bidderAddr, err := sdk.AccAddressFromBech32(bidder)
 	if err != nil {
 		return err
